@@ -10,12 +10,30 @@ CHECKS = {
     text="Hundreds (thorough: thousands) of generated schema sets covering every production of the supported subset (multi-file import DAGs, all occurrence combinations, nested sequences, choices, cross-file extensions, element refs, derived simple types, list/union, attributes, keyword member names, default-namespace and re-used prefixes, forward references, WSDLs with headers / one-way / unnamed body parts) are emitted and compiled as a module of a crate that links only yaserde, yaserde_derive, xml-rs, log, reqwest, tokio. The repository's own inputs serve as a regression corpus against a committed baseline. Held = every accepted generated input compiled.",
     note="Trusted: rustc and the dependency artifacts built from the repository's Cargo.lock. Gate: type names colliding with prelude identifiers are masked (open finding F17, replayed separately). Inputs outside the grammar are only covered by C13.",
     design="DESIGN.md section 4 C01"),
+ "C02": dict(
+    category="exploration",
+    technique="generative differential testing against an independent reference mapping: proptest-generated schema models -> zeep -> syn member-by-member comparison + a synthesized typed driver (complete struct literals with exactly typed bindings) judged by rustc",
+    text="For hundreds (thorough: thousands) of generated schema sets every expected struct (named complex type, simple type, anonymous-typed global element) must exist exactly once in the single module of its namespace with exactly the expected public members: presence, attribute flag, T / Option<T> / Vec<T> from own and enclosing occurrence and choice membership, builtin mapping, order, and nothing undeclared. rustc then type-checks a driver that builds each struct from exactly typed lets, which also pins the module of every struct-typed member.",
+    note="Trusted: the reference mapping in expect.rs (DESIGN.md 3.2), syn, rustc. Field names are asserted only for canonical names (words of >= 2 letters in six case styles). Gate: prelude-colliding type names (F17).",
+    design="DESIGN.md section 4 C02"),
  "C06": dict(
     category="exploration",
     technique="property-based differential testing: exhaustive small-bound sweep + proptest-generated triples against an executable XSD-facet specification (i128)",
     text="Every (carrier, value, restriction set) triple in an exhaustive small-bound sweep (all subsets of the numeric facets, of the length facets and of an enumeration pool, all integer carriers with their extremes, multi-byte strings) and tens of thousands of proptest-generated full-range triples with Option/Vec nesting are run through the helper source compiled unmodified from /repo and compared with an independent facet specification. Disagreements are minimised to their cause and shrunk. Held = no disagreement on anything explored; not a proof for all i32 bounds.",
     note="Trusted: the harness's facet specification (c06.rs spec_leaf), rustc. Text that is a decimal/float/padded numeral under numeric facets is generated but not judged.",
     design="DESIGN.md section 4 C06"),
+ "C08": dict(
+    category="exploration",
+    technique="generative differential testing on extension forests: C02's syn comparison and typed driver restricted to derived structs, plus a namespace check of every element member's yaserde prefix",
+    text="Generated extension forests (chains and fan-out, bases before/after the derived type, in the same or an imported file, own content of every shape, attributes on both sides) are emitted and every derived struct is compared with the reference mapping: base members first in their order, then the extension's elements, then its attributes; the typed driver must compile; each element member's prefix must be bound to the namespace of the schema that declared it.",
+    note="Trusted: expect.rs, syn, rustc. The wire-level half (serialised documents) is judged by C03.",
+    design="DESIGN.md section 4 C08"),
+ "C09": dict(
+    category="exploration",
+    technique="metamorphic property-based testing: each generated model is built with colliding local names and as a twin with distinct names from the same raw value; the C02/C08 oracles run on both and only failures that the twin does not share count",
+    text="Colliding cases reuse a local name for types of two namespaces with different members, name local elements and attributes like global components, name global elements like their type, bind one prefix to different namespaces in different files, use default-namespace QNames and permuted declaration order. Because references are index-based in the model the expected binding is known; rustc's nominal typing (g::mod_a::X vs g::mod_b::X) and the member lists expose a reference bound to the wrong namespace or kind.",
+    note="Trusted: expect.rs, syn, rustc. WSDL-level references (message parts) are judged by C05.",
+    design="DESIGN.md section 4 C09"),
  "C11": dict(
     category="exploration",
     technique="exhaustive enumeration of small import graphs plus proptest-generated larger ones, run in isolated worker processes; BFS-reachability oracle on struct names (syn) and metamorphic byte-equality under changes to unreachable siblings",
